@@ -245,10 +245,15 @@ PROPS = {
     "C04": {
         "run": ["EvalProps"], "functional": False,
         "n": {"quick": 300, "thorough": 6000},
-        "level_text": "Theorems: the result lists the response's apps in order and the i-th offered app carries the i-th installer result, all others NoUpdate (all responses, all result vectors).  The remaining clauses are decided by trace equality between the state-machine model (Model/SM.v, whose traces are the subject of the "
-                      "monitor theorems of C02/C05/C06/C07) and the real state machine on the property's projection of the trace: the event stream (every state, schedule, protocol-state, result, progress, server-response and installer-error event, in order).",
-        "level_note": "PARTIAL at the level of theorems (stated in Props/C04.v): event-shape clauses (first/last events, the iff for each announced state, Idle/WaitingForReboot) are not yet theorems.  Model = code is sampled on scripted runs.",
-        "diff_meaning": "The implementation's projection of the trace differs from the model's on this scripted environment (or it panicked / hung).",
+        "level_text": "Theorems: (1) C04_event_monitor_accepts_every_model_trace: for every script, configuration, app set and entry point the model's trace is accepted by the executable monitor step4, "
+                      "which reads the facts from the trace (outcome of the last attempt, document, plan, policy decision, per-app installer results, reboot-needed answer) and dictates the event stream: "
+                      "CheckingForUpdates first; ErrorCheckingForUpdate iff no usable response; the server response iff authenticated, 2xx and parsed (and that very document); NoUpdateAvailable / "
+                      "InstallingUpdate+InstallationError / InstallationDeferredByPolicy / InstallingUpdate, one InstallerError per failed app then InstallationError, per path; then schedule, protocol state and "
+                      "exactly one result listing the response's apps in order with the action each received; those two announcements are what the policy is next shown; WaitingForReboot iff a reboot is pending, "
+                      "then Idle; (2) the result functions are characterised for all responses and result vectors (C04_result_alignment etc.).  Model tied to the code by trace equality on scripted runs; "
+                      "the monitor also runs on every implementation trace.",
+        "level_note": "Proved for the model, unbounded.  Model = code is sampled on scripted runs.",
+        "diff_meaning": "The event-stream monitor rejects the implementation's trace (code 2), or the event projection differs from the model's.",
         "rule": "random scripted environments over transport/HTTP/parse outcomes, multi-app responses with any subset offered, unknown and duplicate app ids, error/restricted statuses, shuffled order, 3 policy decisions, per-app installer results, reboot needed or not; distinct = distinct implementation trace; non-trivial = at least one request or completed check",
         "assumptions": ["harness trait implementations follow the trait contracts", "Storage trait contract: writes cached until commit, commit atomic"],
         "trusted_base": COMMON_TB + ["modelled, not verified: state_machine.rs, update_check.rs, builder.rs, app_set.rs, common.rs"],
@@ -278,10 +283,14 @@ PROPS = {
     "C10": {
         "run": ["EvalProps"], "functional": False,
         "n": {"quick": 300, "thorough": 6000},
-        "level_text": "Theorems: an event report carries one event for exactly the known apps offered an update, in app-set order, each with the app's canonical current version as previous and the offered manifest version as next.  The remaining clauses are decided by trace equality between the state-machine model (Model/SM.v, whose traces are the subject of the "
-                      "monitor theorems of C02/C05/C06/C07) and the real state machine on the property's projection of the trace: requests (bytes and structured content), lost-event metrics, installer calls, result and state events.",
-        "level_note": "PARTIAL at the level of theorems (stated in Props/C10.v): which reports are sent on which path, lost-event accounting and outcome independence are not yet theorems.  Model = code is sampled on scripted runs.",
-        "diff_meaning": "The implementation's projection of the trace differs from the model's on this scripted environment (or it panicked / hung).",
+        "level_text": "Theorems: (1) C10_report_monitor_accepts_every_model_trace: for every script, configuration, app set and entry point the model's trace is accepted by the executable monitor "
+                      "step10: update-check requests and pings carry no event; after the attempts the path taken (unparseable body / plan refused / policy deferred or denied / approved install with per-app "
+                      "results) fixes the reports owed, each discharged by exactly one request carrying exactly the expected events for exactly the expected apps (previous version = current version, next "
+                      "version = an offered manifest version), or by one lost-event metric per event when it cannot be delivered; no other request, no retry, result only when nothing is owed; "
+                      "(2) C10_report_ok_meaning, C10_report_for_exactly_the_offered_known_apps, C10_event_versions, C10_templates.  Model tied to the code by trace equality on scripted runs; "
+                      "the monitor (and the session/request-id monitor step6ids) also runs on every implementation trace.",
+        "level_note": "Proved for the model, unbounded.  Session and request ids of reports are checked at run time only (step6ids), not proved.  Model = code is sampled on scripted runs.",
+        "diff_meaning": "The report monitor (or the id monitor) rejects the implementation's trace (code 2), or the request / lost-metric / installer / result projection differs from the model's.",
         "rule": "random scripted environments with update offers for any subset of 1-3 apps, plan failure, 3 policy decisions, per-app results, and every delivery outcome (ok, transport, HTTP error, forged) of each report; distinct = distinct implementation trace; non-trivial = at least one request or completed check",
         "assumptions": ["harness trait implementations follow the trait contracts", "Storage trait contract: writes cached until commit, commit atomic"],
         "trusted_base": COMMON_TB + ["modelled, not verified: state_machine.rs, update_check.rs, builder.rs, app_set.rs, common.rs"],
